@@ -14,10 +14,13 @@ def numpy_to_sgz(path, cube, rate, blockshape=(4, 4, -1), **kw):
     return path
 
 
-def segy_to_sgz(src, path, rate=4, blockshape=None, reduce_iops=False, header_detection='heuristic', window=None):
+def segy_to_sgz(src, path, rate=4, blockshape=None, reduce_iops=False, header_detection='heuristic', window=None, np_ints=False):
     from seismic_zfp.conversion import SegyConverter
     kw = {}
     if window is not None:
+        if np_ints:         # ordinals as numpy integers (what np.searchsorted on the line axes returns)
+            import numpy as np
+            window = [np.int64(v) for v in window]
         kw = dict(min_il=window[0], max_il=window[1], min_xl=window[2], max_xl=window[3])
     with env.quiet():
         with SegyConverter(src, **kw) as c:
